@@ -80,13 +80,13 @@ theorem runPassDir_wfh (p : PassT) (c : Ctx) (fuel : Nat) (ar : Bool) (h : WFh c
 
 theorem testPassConstraint_safe (p : PassT) (hp : passOK p = true) (c : Ctx) (s0 : Nat) {l : List Nat} (hl : Linked c.seg l)
     (hc : Clean c.seg l) (hal : Alloc c.seg l) (hh : HwOK c.highwater l) (hs0 : s0 ∈ l) {w : String}
-    (e : testPassConstraint p c s0 = .error w) : ¬ nullFault w := by
+    (e : testPassConstraint p c s0 = .error w) : ¬ engineFault w := by
   unfold testPassConstraint at e
   split at e
   · cases e
   · rename_i hne
     split at e
-    · cases e; unfold nullFault; decide
+    · cases e; unfold engineFault nullFault mapFault; decide
     · rename_i k hk
       simp only [] at e
       split at e
@@ -99,13 +99,13 @@ theorem testPassConstraint_safe (p : PassT) (hp : passOK p = true) (c : Ctx) (s0
         · obtain ⟨cur', hrun, _⟩ := codeOK_run h1 hk
           have hjo : JO (c.resetMap (((Array.replicate (MAX_SLOTS + 2) none).setIfInBounds 0 (c.seg.get s0).prev).setIfInBounds 1 (some s0)) 1 0) l none :=
             JO.mk' (show Linked c.seg l from hl) (show Clean c.seg l from hc) (.inl rfl) (show HwOK c.highwater l from hh) (show Alloc c.seg l from hal)
-          refine runConstraint_safe k _ 1 hjo (i := s0) ?_ hs0 hrun hw
+          refine runConstraint_safe k _ 1 hjo (by simp [Ctx.resetMap, MAX_SLOTS]) (by simp [Ctx.resetMap]) (i := s0) ?_ hs0 hrun hw
           simp [Ctx.resetMap, MAX_SLOTS]
       · cases e
 
 /-- **a pass with its constraint and direction step**: no write through a null cursor -/
 theorem runPassDir_safe (p : PassT) (hp : passOK p = true) (c : Ctx) (fuel : Nat) (ar : Bool) (h : WFh c.highwater c.seg) {w : String}
-    (e : runPassDir p c fuel ar = .error w) : ¬ nullFault w := by
+    (e : runPassDir p c fuel ar = .error w) : ¬ engineFault w := by
   unfold runPassDir at e
   split at e
   · cases e
@@ -132,7 +132,7 @@ theorem runPhase_begin (passes : Array PassT) (bPass : Nat) (c : Ctx) (lo hi : N
 /-- **a call of `Silf::runGraphite`**: on a font all of whose passes passed the loader's cursor tests, no write through a null cursor -/
 theorem runPhase_safe (passes : Array PassT) (hp : ∀ k, passOK (passes.getD k default) = true) (bPass : Nat) (c : Ctx) (lo hi : Nat)
     (dobidi : Bool) (fuel aMirror : Nat) (h : WF c.seg) {w : String} (e : runPhase passes bPass c lo hi dobidi fuel aMirror = .error w) :
-    ¬ nullFault w := by
+    ¬ engineFault w := by
   rw [runPhase_begin] at e
   obtain ⟨ar, k, c1, _, _, h1, e1⟩ := runPhase_err (fun c => WFh c.highwater c.seg) passes bPass lo hi dobidi fuel aMirror
     (fun ar k _ _ c1 c2 h1 e1 => runPassDir_wfh _ c1 fuel ar h1 e1) (fun c l h => (WFh.wf h).wfh_none) (fun c h => bidiStep_wfh h aMirror)
@@ -152,9 +152,10 @@ theorem fontOK_pass {font : Font} (h : fontOK font = true) (k : Nat) : passOK (f
     decide +kernel
 
 /-- **The pipeline, every text, every font whose code passed the loader's cursor tests**: whatever error the model reports, it is
-not a write through a null cursor (`is->setGlyph`, `is->setAttr`, `is->before/after` with `is == NULL`). -/
+neither a write through a null cursor (`is->setGlyph`, `is->setAttr`, `is->before/after` with `is == NULL`) nor a write outside the slot map
+(`*map = …` with `map` outside `m_slot_map`). -/
 theorem shape_noNullCursor (font : Font) (hf : fontOK font = true) (text : List Nat) (fuel : Nat) (dir : Nat) {w : String}
-    (e : shape font text fuel dir = .error w) : ¬ nullFault w := by
+    (e : shape font text fuel dir = .error w) : ¬ engineFault w := by
   unfold shape at e
   split at e
   · cases e
@@ -166,7 +167,7 @@ theorem shape_noNullCursor (font : Font) (hf : fontOK font = true) (text : List 
     · rename_i c1 h1
       have w1 : WF c1.seg := runPhase_spec _ _ _ _ _ _ _ (startMirror_wf font (initSeg_wf font text dir)) h1
       split at e
-      · cases e; unfold nullFault; decide
+      · cases e; unfold engineFault nullFault mapFault; decide
       · rename_i seg' ci' hre
         have w2 : WF seg' := reassoc_wf w1 hre
         split at e
